@@ -137,7 +137,9 @@ fn setup<M: ZooMsg + ?Sized>(dec: &mut Decider, stats: &mut Stats) -> Result<Set
         }
     }
     if plan.msgs.len() != p + 2 {
-        return Err("plan produced fewer messages than requested".into());
+        // no valid message could be built for this seed (the tree rejects freshly emplaced
+        // values): nothing to enumerate here; counted as a probe, other seeds go on
+        return Err("SKIP:plan produced fewer messages than requested".into());
     }
     let wire = wire_of::<M>(&plan)?;
     Ok(Setup { plan, wire, p })
@@ -253,6 +255,11 @@ pub fn run_c06<M: ZooMsg + ?Sized>(sc: &Scenario, keep_log: bool) -> RunOutput {
                 if parts.len() == 4 {
                     return trivial_output(dec, stats, None, viol(parts[0], parts[1], parts[2], parts[3].to_string()));
                 }
+            }
+            if e.starts_with("SKIP:") {
+                let mut stats = stats;
+                stats[P::producer_left_invalid_message as usize] += 1;
+                return trivial_output(dec, stats, None, None);
             }
             return trivial_output(dec, stats, Some(e), None);
         }
